@@ -152,7 +152,8 @@ int enc_run(const enccfg_t *c, encres_t *r){
     if(c->coupling_off){ int z=0; vorbis_encode_ctl(&vi,OV_ECTL_COUPLING_SET,&z); }
     if(c->lowpass_khz>0){ double lp=c->lowpass_khz; vorbis_encode_ctl(&vi,OV_ECTL_LOWPASS_SET,&lp); }
     if(c->impulse_block_bias!=0){ double b=c->impulse_block_bias; vorbis_encode_ctl(&vi,OV_ECTL_IBLOCK_SET,&b); }
-    if(c->have_rm2){
+    if(c->rm2_disable && c->mode==ENC_MANAGED) vorbis_encode_ctl(&vi,OV_ECTL_RATEMANAGE2_SET,NULL);
+    if(c->have_rm2 && !c->rm2_disable){
       struct ovectl_ratemanage2_arg a;
       if(vorbis_encode_ctl(&vi,OV_ECTL_RATEMANAGE2_GET,&a)==0 && a.management_active){
         long rate_bits = a.bitrate_limit_max_kbps>0? a.bitrate_limit_max_kbps*1000 :
